@@ -35,6 +35,9 @@ CHECKS = {
  "C07": dict(cat="fault_enumeration", technique="fault enumeration (every single-fault placement x 7 kinds over 4 scripts) + random multi-fault histories, then bounded fault-free tail and quiescent agreement oracle (pool Status vs cloud state vs ledger vs idle band)",
      text="All first-order fault placements (mutating cloud call 1..12 x err-before/err-after/partial/quota-eni/vsw-exhaust/quota-ip/half-created) of four fixed request scripts are enumerated, plus random histories with 1..6 faults and cancellations. Faults then stop and the pool is driven (clear inhibit, balancer, sync) for at most 100 counted rounds; at the fixed point interfaces and addresses tracked by the pool must equal the cloud's, no address may be owned by a pod that holds none, nothing may stay 'Deleting', and the idle count must lie in the min/max band (tolerating undisposable primaries and per-family room).",
      note="'Eventually' is decided as bounded progress (100 rounds). No cloud drift in C07 histories. IPv6-only band is not judged (the daemon's config validation rejects that stack).", ref="§2 C07"),
+ "C04": dict(cat="exploration", technique="recorded RPC histories of the real networkService checked with porcupine against a sequential sandbox model (partitioned per pod) + online 'processing' guard + interval ledger over replies + record/pool/live-sandbox agreement at quiescence; race detector",
+     text="Each history runs the real daemon service (real k8s layer on a simulated API server, real bolt store behind a latency/fault wrapper, real pool on the simulated cloud) under 8..24 concurrent clients issuing ADD / repeated ADD / new-sandbox ADD / DEL and GET with current, previous and unknown container ids, with cancellation before the call, during GetPod, during the store write and while waiting for the pool, plus store write failures. Requests answered 'processing' must overlap another request of the pod and are removed; the rest of every pod's history must be linearizable against the model; addresses in replies feed the C01 ledger; at quiescence pool owners, records and live sandboxes must agree.",
+     note="Runtime ordering assumption: primary ADD/DEL of one sandbox are sequential and a new sandbox starts only after DEL of the previous one was issued; stale replays arrive at any time.", ref="§2 C04"),
 }
 NOT_YET = {}
 
